@@ -21,6 +21,9 @@ enum Fault {
     MidResponse(Cut),
     Malformed(Hostile),
     AnswerOneThenClose,
+    /// WebSocketClient only: the peer sends a WebSocket Close frame and then keeps the TCP connection open
+    /// (never reads, never closes): the connection has closed all the same
+    CloseFrameKeepOpen,
 }
 
 #[derive(Clone, Copy, Debug, PartialEq, Eq)]
@@ -152,6 +155,11 @@ fn scenarios(tier: Tier) -> Vec<Scenario> {
             }
         }
     }
+    for &inflight in inflights {
+        for timed in [false, true] {
+            v.push(Scenario::Failure { kind: Kind::Ws, inflight, timed, fault: Fault::CloseFrameKeepOpen });
+        }
+    }
     v
 }
 
@@ -247,9 +255,18 @@ async fn run_failure_sub(kind: Kind, inflight: usize, timed: bool, fault: Fault,
             let id = ids.get(&100).copied().unwrap_or(1);
             peer.send_bytes(&hostile_bytes(h, id)).await;
         }
+        Fault::CloseFrameKeepOpen => {
+            if let clients::Peer::Ws { ws, .. } = &mut peer {
+                use futures_util::SinkExt;
+                let _ = ws.send(tokio_tungstenite::tungstenite::Message::Close(None)).await;
+            }
+        }
     }
     memstream::settle().await;
     let mut flags = if inflight > 0 { 1 } else { 0 };
+    if fault == Fault::CloseFrameKeepOpen {
+        flags |= 256;
+    }
     for (i, h) in calls.into_iter().enumerate() {
         let r = clients::join_call(h).await;
         let tag = 100 + i as u64;
@@ -597,7 +614,7 @@ pub fn run(tier: Tier) -> ! {
         |(rt, bad, flagc, n), i| {
             let (b, flags) = rt.block_on(run_one(&all[i as usize]));
             *n += 1;
-            for bit in 0..8 {
+            for bit in 0..9 {
                 if flags & (1 << bit) != 0 {
                     *flagc.entry(bit).or_insert(0) += 1;
                 }
@@ -622,16 +639,16 @@ pub fn run(tier: Tier) -> ! {
         ctx.violation(k, w, json!({"scenario": format!("{:?}", all[i]), "index": i, "tier": tier.name()}));
     }
     let g = |b: u64| flagc.get(&b).copied().unwrap_or(0);
-    if !ctx.has_violation() && (0..8).any(|b| g(b) == 0) {
+    if !ctx.has_violation() && (0..9).any(|b| g(b) == 0) {
         ctx.machinery("vacuous exploration: a scenario family never ran");
     }
     let coverage = json!({
         "evaluations": executed,
         "distinct_nontrivial": all.len(),
-        "rule": "for both tokio clients over an in-memory stream with a paused clock: every fault (peer closes before the calls / after reading them, reset, reply cut after 1/47/48/50/len-1 bytes, five kinds of malformed frame, answer one then close) x 0..3 (thorough 0..16) calls in flight x with/without per-call timeouts; a response arriving 4990/50/2 ms before a 5 s timeout and 2 ms after it, with and without another call in flight; two staggered timeouts; cancellation before start, while awaiting the response and while queued on the writer lock; a failure that leaves the client's writing side open (five malformed frames, half-close, cut reply + half-close) injected while a 20 KB request is stalled mid-write, with 0..2 (thorough 0..4) earlier calls in flight, the peer afterwards letting the stalled write through or never reading again; WebSocketClient failures with the notification subscription replaced beforehand (the current subscriber must see end-of-stream). A call that is still pending after a virtual hour hangs. Distinct = scenarios (each has a different script).",
+        "rule": "for both tokio clients over an in-memory stream with a paused clock: every fault (peer closes before the calls / after reading them, reset, reply cut after 1/47/48/50/len-1 bytes, five kinds of malformed frame, answer one then close) x 0..3 (thorough 0..16) calls in flight x with/without per-call timeouts; a response arriving 4990/50/2 ms before a 5 s timeout and 2 ms after it, with and without another call in flight; two staggered timeouts; cancellation before start, while awaiting the response and while queued on the writer lock; a failure that leaves the client's writing side open (five malformed frames, half-close, cut reply + half-close) injected while a 20 KB request is stalled mid-write, with 0..2 (thorough 0..4) earlier calls in flight, the peer afterwards letting the stalled write through or never reading again; WebSocketClient failures with the notification subscription replaced beforehand (the current subscriber must see end-of-stream); a WebSocket Close frame from a peer that keeps the TCP connection open. A call that is still pending after a virtual hour hangs. Distinct = scenarios (each has a different script).",
         "samples": samples.take(),
         "exhaustive": executed == all.len() as u64,
-        "nonvacuity": {"failures_with_calls_in_flight": g(0), "subscriber_eof_checks": g(1), "timeout_scenarios": g(2), "late_responses_after_timeout": g(3), "staggered_timeouts": g(4), "cancellations": g(5), "failures_while_a_request_was_really_stalled_mid_write": g(6), "failures_with_a_replaced_subscription": g(7)},
+        "nonvacuity": {"failures_with_calls_in_flight": g(0), "subscriber_eof_checks": g(1), "timeout_scenarios": g(2), "late_responses_after_timeout": g(3), "staggered_timeouts": g(4), "cancellations": g(5), "failures_while_a_request_was_really_stalled_mid_write": g(6), "failures_with_a_replaced_subscription": g(7), "close_frame_with_tcp_left_open": g(8)},
     });
     ctx.finish(
         "fault_enumeration",
